@@ -3,6 +3,8 @@ Driver ops of the session state codec model (`Model.SessionState`, gmtls/ticket.
 
   sstate <hex>                                  -> ok <vers> <suite> <master hex> <certs> <re-marshalled hex> | reject
   sstatem <vers> <suite> <master hex> <certs>   -> <marshalled hex>
+  sstalloc <hex>                                -> accept <slots> | reject <slots>   (verdict of `unmarshal`, slots of the
+                                                   certificate table it allocated: `allocSlots`; harness/c18ticketalloc.go)
 
 <certs>: `-` for no certificate, otherwise the certificates in hex joined by `,`, an empty certificate
 written `.`; the empty byte string is `-` elsewhere; numbers decimal.
@@ -34,10 +36,18 @@ def sstatemOp (args : List String) : String :=
     | _, _, _, _ => "bad-op"
   | _ => "bad-op"
 
+def sstallocOp (args : List String) : String :=
+  match args with
+  | [b] => match ofHex b with
+    | some b => (if (unmarshal b).isSome then "accept " else "reject ") ++ toString (allocSlots b)
+    | none => "bad-op"
+  | _ => "bad-op"
+
 def sessionStateDispatch (toks : List String) : Option String :=
   match toks with
   | "sstate" :: rest => some (sstateOp rest)
   | "sstatem" :: rest => some (sstatemOp rest)
+  | "sstalloc" :: rest => some (sstallocOp rest)
   | _ => none
 
 end Driver
